@@ -109,11 +109,19 @@ func (p *poller) addConn(c *Conn) error {
 		return net.ErrClosed
 	}
 	c.p = p
+	// a close that comes while the open notification is on its way leaves its
+	// notification to this call: it must not overtake the open notification.
+	atomic.StoreInt32(&c.opening, 1)
 	c.mux.Unlock()
 	if c.typ != ConnTypeUDPServer {
 		p.g.onOpen(c)
 	} else {
 		p.g.onUDPListen(c)
+	}
+	if !atomic.CompareAndSwapInt32(&c.opening, 1, 0) {
+		// closed meanwhile: now the close notification.
+		atomic.StoreInt32(&c.opening, 0)
+		p.deleteConn(c)
 	}
 	verifPoint("addConn.afterOnOpen", c)
 	// Stop closes the connections it finds in the table: either this one is
